@@ -152,6 +152,8 @@ class Tracker:
             # Advection
             if self.vertical_advection:
                 W = force.variables["w"]
+                if self.modules["time"].time_reversal:
+                    W = -W  # Backwards in time: opposite velocity, as for u and v
                 Z += W * self.dt
 
             # Reflexive boundary conditions at surface
